@@ -13,7 +13,8 @@ RULE = (
     "Hypothesis draws {level, 1-3 images with (lines, pixels) incl. 1xN / Nx1, records_per_chunk "
     "class relative to the line count, filesystem kind, value seed}; the independent encoder "
     "writes raw big-endian sample bytes (random words sprinkled with NaN payloads, +-inf, +-0, "
-    "denormals, 0x0000, 0xFFFF); oracle = the raw bytes themselves, compared word for word. "
+    "denormals, 0x0000, 0xFFFF); oracle = the raw bytes themselves, compared word for word, for the "
+    "full load and for a generated window (rows a::s with s in {1..5,7,-1,-3}, columns c0:c1). "
     "Non-trivial: lines>=2 and pixels>=2 and at least two distinct sample words. Distinct = sha1 "
     "of the case dict."
 )
@@ -52,7 +53,13 @@ def cases(draw, max_lines=48, max_pixels=32):
     rpc = draw(rpc_strategy(images[0]["lines"]))
     fs = draw(st.sampled_from(["local", "file", "memory", "vtrace"]))
     vseed = draw(st.integers(0, 2**32 - 1))
-    return {"level": level, "images": images, "rpc": rpc, "fs": fs, "vseed": vseed}
+    # a window read after the full load: rows a::s (s may be negative), columns c0:c1
+    n, p = images[0]["lines"], images[0]["pixels"]
+    window = {
+        "rows": [draw(st.integers(0, n - 1)), draw(st.sampled_from([1, 2, 3, 4, 5, 7, -1, -3]))],
+        "cols": sorted([draw(st.integers(0, p)), draw(st.integers(0, p))]),
+    }
+    return {"level": level, "images": images, "rpc": rpc, "fs": fs, "vseed": vseed, "window": window}
 
 
 def plan(tier):
@@ -104,6 +111,30 @@ def observed_words(values, type_code):
     return values.astype("<u2", copy=False)
 
 
+def check_window(case, var, iinfo, exp, where):
+    """a partial (strided / windowed) read must return the file's samples at those positions too"""
+    w = case.get("window")
+    if not w:
+        return []
+    a, step = w["rows"]
+    a = min(a, iinfo["lines"] - 1)
+    c0, c1 = (min(c, iinfo["pixels"]) for c in w["cols"])
+    rows = slice(a, None, step)
+    values, err = harness.guard(lambda: np.asarray(var.isel(rows=rows, columns=slice(c0, c1)).values))
+    text = f"{where}[{a}::{step}, {c0}:{c1}]"
+    if err is not None:
+        return [harness.disc("exception", text, "values", harness.exc_text(err))]
+    k = 2 if iinfo["type_code"] == "C*8" else 1
+    want = exp[rows, k * c0: k * c1]
+    if values.shape != (want.shape[0], c1 - c0):
+        return [harness.disc("shape", text, (want.shape[0], c1 - c0), values.shape)]
+    got = observed_words(values, iinfo["type_code"]) if values.size else want[:0]
+    if values.size and not np.array_equal(want, got):
+        bad = np.argwhere(want != got)
+        return [harness.disc("pixel-bits", text, f"word 0x{int(want[tuple(bad[0])]):08x}", f"0x{int(got[tuple(bad[0])]):08x}", n_bad=int(len(bad)))]
+    return []
+
+
 def run_case(case):
     spec = common.spec_from(case)
     files, info = product.build_product(spec)
@@ -138,6 +169,7 @@ def run_case(case):
                 continue
             exp = expected_words(iinfo)
             obs = observed_words(values, iinfo["type_code"])
+            out.extend(check_window(case, var, iinfo, exp, where))
             if not np.array_equal(exp, obs):
                 bad = np.argwhere(exp != obs)
                 r, c = (int(x) for x in bad[0])
